@@ -7,6 +7,7 @@ import (
 	"fmt"
 	"go/types"
 	"os"
+	"strings"
 )
 
 func (in *Interp) inputVar(name, kind string, sort Sort) *Term {
@@ -133,6 +134,15 @@ func registerHarnessIntrinsics() {
 			fmt.Fprintf(os.Stderr, "DUMP %v %s: %v\n", in.path.taken, concName(args[0]), args[1])
 		}
 		return nil, true
+	})
+	reg("vFoldEq", func(in *Interp, fr *frame, args []Value) (Value, bool) {
+		a, b := strArg(args[0]), strArg(args[1])
+		ca, ok1 := a.Concrete()
+		cb, ok2 := b.Concrete()
+		if ok1 && ok2 {
+			return strings.EqualFold(ca, cb), true
+		}
+		return in.equalFold(fr, a, b), true
 	})
 	reg("vIsEngine", func(in *Interp, fr *frame, args []Value) (Value, bool) { return true, true })
 	reg("vLateSched", func(in *Interp, fr *frame, args []Value) (Value, bool) {
